@@ -1,5 +1,5 @@
-\* C12 quick tier, composition data: the ONE data set made of all 10 integer points of the
-\* simplex layer x + y + z = 3 (every row has the same coordinate total), k = 3, up to six sweeps,
+\* C12 thorough tier (a), composition data: the ONE data set made of all 15 integer points of the
+\* simplex layer x + y + z = 4 (every row has the same coordinate total), k = 3, up to six sweeps,
 \* every seeding, every tie resolution.  ShowSwap makes TLC list (INFO lines) the states in which a
 \* tie-free sweep after the first exchanges members of a cluster without changing its count or
 \* its coordinate total; the check has the harness refit the listed data sets many times.
@@ -7,12 +7,12 @@
 \* 2-D layers are collinear, where an exchange is impossible: TLC reports 0 INFO lines there.)
 CONSTANTS
     Dim = 3
-    Vals = {0, 1, 2, 3}
+    Vals = {0, 1, 2, 3, 4}
     MaxN = 6
     Ks = {3}
     MaxIters = {6}
     FullLayer = TRUE
-    RowSum = 3
+    RowSum = 4
     ShowSwap = TRUE
     ShowEmpty = FALSE
     Replay = FALSE
